@@ -93,6 +93,7 @@ Definition pr_of_value (v : tok) : pres :=
   match v with
   | TPR r => r                    (* isinstance(toklist, ParseResults): the same object *)
   | TList l => pr_of_list l       (* list(toklist) *)
+  | TNone => pr_empty             (* ParseResults(None): `__new__` starts from [] when toklist is None *)
   | other => pr_of_list [other]   (* [toklist] *)
   end.
 
